@@ -7,10 +7,16 @@
    operands in registers or spill slots, every aliasing between operands, and every contents of
    registers and memory, the instruction sequence the model emits has exactly the abstract
    operation's effect and changes nothing but the target, rcx and the flags.
-   What is NOT proved: the memory operations (store/load/acquire/erase/share) at L1 -> L2 and the
-   generic simulation L0 -> L1; whole-program preservation is therefore established by the
-   correspondence check plus execution of the implementation's output on the ISA model against
-   the AxCut machine (see the evidence file), and stated below as C06_codegen_correct_statement. *)
+   PROVED in addition (second part of this file): the forward simulation L0 -> L2 for the INTEGER
+   FRAGMENT (every variable `ext i64`; statements Substitute / Call / Literal / Op / PrintI64 / IfC / Exit):
+   a state relation `rel`, one simulation theorem per statement form for every context shape, their
+   composition by induction on the machine's fuel (`C06_sim_exec`), the layout of the code image, the
+   prologue and epilogue, and the whole-program theorem `C06_codegen_simulates_int`.
+   What is NOT proved: the simulation for the heap statements Let / Switch / Create / Invoke (their
+   building blocks share/erase/release/acquire are refined to x86-64 under C09); for programs using them
+   whole-program preservation is established by the correspondence check plus execution of the
+   implementation's output on the ISA model against the AxCut machine (see the evidence file); the
+   full statement is C06_codegen_correct_statement below. *)
 From Coq Require Import List ZArith NArith String Bool.
 From SCC Require Import Lang.AxSyn Sem.AxSem Model.Backend Model.X86 Sem.X86Sem Proof.X86State Proof.X86Sel Proof.X86Consts.
 Import ListNotations.
@@ -99,3 +105,428 @@ Definition C06_codegen_correct_statement : Prop :=
     x86_compile p lc = Ok (cs, n, lc') ->
     run_linear fuel p args = o -> defined o = true ->
     exists outer inner, fst (run_x86 outer inner cs args) = o.
+
+
+(* ======================================================================================== *)
+(* Forward simulation of the generic code generator instantiated at x86-64, integer fragment *)
+(* ======================================================================================== *)
+From SCC Require Import Model.ParMoves Model.LinCheck Sem.X86Wf Proof.X86Exec Proof.SubstGraph Proof.X86Subst
+     Proof.X86SimRel Proof.X86SimStmt Proof.X86SimPrint Proof.X86SimProg Proof.X86SimTop Proof.X86SimExample.
+Open Scope list_scope.
+(* THE STATE RELATION  `rel CL c e s sp`  (Proof/X86SimRel.v) between a configuration of the linear AxCut
+   machine - the typing context c the generator threads and the environment e, a list of (name, value)
+   by position - and an ISA state s:  rsp = sp with the whole spill area inside the stack region,
+   sp = 8 (mod 16), room below sp for the pushes around a print call, rbp (deferred-free list) defined;
+   e and c name the same ids in the same order, pairwise distinct; position i is represented (`vrep`) as
+     integer z (binding ext i64):  the SECOND temporary of position i (register 5+2i, or spill slot 2i-10
+                                   from position 6 on) holds z;
+     closure without captured variables (binding cns T): first temporary = null block pointer, second
+                                   temporary = a code address a with `CL a T clauses`.
+   CL, what a closure's code pointer points to, is a parameter of the statement-level theorems (they never
+   look inside; the program-level theorem of the integer fragment takes CL := False).
+   `frame_eq s s' sp`: heap, output and every stack word outside the spill area are unchanged;
+   `above_eq`: heap and every stack word at or above sp are unchanged.
+   First consequence: the machine's operand lookup and the generator's `variable_temporary` meet. *)
+Theorem C06_sim_rel_reads :
+  forall (CL : Z -> ident -> list clause -> Prop) (c : ctx) (e : env) (s : xstate) (sp : Z) (a : ident) (x : Z),
+    rel CL c e s sp -> lookup_int e a = Some x ->
+    exists i b t, nth_error c i = Some b /\ idn (bvar b) = idn a /\ tpos x86_backend Snd i = Ok t /\ lget s sp t = Some x.
+Proof. exact rel_lookup. Qed.
+Print Assumptions C06_sim_rel_reads.
+
+(* One theorem per statement form.  In each: ANY context c (any number of variables, so operands and
+   target in registers or spill slots in every combination; operands may coincide), the hypotheses on
+   the machine side are exactly the conditions under which `exec_linear` takes the step, the temporaries
+   are whatever `code_statement` computed (`variable_temporary … = Ok t`), and the conclusion relates the
+   state after the emitted code to the machine's next environment. *)
+Theorem C06_sim_literal :
+  forall (im : image) (CL : Z -> ident -> list clause -> Prop) (c : ctx) (e : env) (s : xstate) (sp : Z) (n : Z) (v : ident) (tv : xtemp),
+    rel CL c e s sp -> NoDup (ids (c ++ [mkb v Ext I64])) ->
+    variable_temporary x86_backend Snd (c ++ [mkb v Ext I64]) (idn v) = Ok tv ->
+    exists s', exec_straight im (x_load_immediate tv n) s = Some s' /\
+               rel CL (c ++ [mkb v Ext I64]) (e ++ [(v, VInt n)]) s' sp /\ frame_eq s s' sp.
+Proof. exact sim_literal. Qed.
+Print Assumptions C06_sim_literal.
+
+(* all five operators; the result is the AxCut value (wrap-around for + - *, truncation for / %) *)
+Theorem C06_sim_op :
+  forall (im : image) (CL : Z -> ident -> list clause -> Prop) (c : ctx) (e : env) (s : xstate) (sp : Z) (a : ident) (o : binop)
+         (b v : ident) (x y z : Z) (tv ta tb : xtemp),
+    rel CL c e s sp -> NoDup (ids (c ++ [mkb v Ext I64])) ->
+    lookup_int e a = Some x -> lookup_int e b = Some y -> eval_op o x y = OpVal z ->
+    variable_temporary x86_backend Snd (c ++ [mkb v Ext I64]) (idn v) = Ok tv ->
+    variable_temporary x86_backend Snd (c ++ [mkb v Ext I64]) (idn a) = Ok ta ->
+    variable_temporary x86_backend Snd (c ++ [mkb v Ext I64]) (idn b) = Ok tb ->
+    exists s', exec_straight im (x_arith o tv ta tb) s = Some s' /\
+               rel CL (c ++ [mkb v Ext I64]) (e ++ [(v, VInt z)]) s' sp /\ frame_eq s s' sp.
+Proof. exact sim_op. Qed.
+Print Assumptions C06_sim_op.
+
+(* the undefined cases (divisor 0, min_int / -1, for Div and Rem): the emitted code runs into the
+   faulting idiv, which the ISA model reports with the same reason, output unchanged *)
+Theorem C06_sim_op_undefined :
+  forall (im : image) (CL : Z -> ident -> list clause -> Prop) (c : ctx) (e : env) (s : xstate) (sp : Z) (a : ident) (o : binop)
+         (b v : ident) (x y : Z) (w : string) (tv ta tb : xtemp),
+    rel CL c e s sp -> NoDup (ids (c ++ [mkb v Ext I64])) ->
+    lookup_int e a = Some x -> lookup_int e b = Some y -> eval_op o x y = OpUndef w ->
+    variable_temporary x86_backend Snd (c ++ [mkb v Ext I64]) (idn v) = Ok tv ->
+    variable_temporary x86_backend Snd (c ++ [mkb v Ext I64]) (idn a) = Ok ta ->
+    variable_temporary x86_backend Snd (c ++ [mkb v Ext I64]) (idn b) = Ok tb ->
+    exists s', exec_undef im (x_arith o tv ta tb) s = Some (w, s') /\ out s' = out s.
+Proof. exact sim_op_undef. Qed.
+Print Assumptions C06_sim_op_undefined.
+Theorem C06_sim_op_undefined_observed :
+  forall (im : image) (pc : positive) (cs : list xcode) (s : xstate) (w : string) (s' : xstate),
+    code_at im pc cs -> exec_undef im cs s = Some (w, s') -> finishes im pc s (finish (out s') (OUndef w)).
+Proof. exact exec_undef_finishes. Qed.
+Print Assumptions C06_sim_op_undefined_observed.
+
+(* IfC, all six comparison sorts, two-operand form (b = Some _) and zero form (b = None): control reaches
+   the first instruction of the branch the machine takes - the else branch right after the jump, the then
+   branch right after the label - in a related state *)
+Theorem C06_sim_ifc :
+  forall (im : image) (CL : Z -> ident -> list clause -> Prop) (c : ctx) (e : env) (s : xstate) (sp : Z) (so : ifsort)
+         (a : ident) (b : option ident) (x y : Z)
+         (types : list tydecl) (thenc elsec : stmt) (lc : N) (code : list xcode) (lc' : N) (pc : positive),
+    rel CL c e s sp -> lookup_int e a = Some x ->
+    match b with Some b => lookup_int e b | None => Some 0 end = Some y ->
+    code_statement x86_backend types (IfC so a b thenc elsec) c lc = Ok (code, lc') ->
+    code_at im pc code -> labels_at_nh im pc code ->
+    exists c1 c2 lc2 c3 s',
+      code = c1 ++ c2 ++ [LAB (iflabel lc)] ++ c3 /\
+      code_statement x86_backend types elsec c (lc + 1)%N = Ok (c2, lc2) /\
+      code_statement x86_backend types thenc c lc2 = Ok (c3, lc') /\
+      exec_to im pc s (if eval_cmp so x y then padd pc (List.length c1 + List.length c2 + 1)
+                       else padd pc (List.length c1)) s' /\
+      rel CL c e s' sp /\ frame_eq s s' sp.
+Proof. exact sim_ifc. Qed.
+Print Assumptions C06_sim_ifc.
+
+(* Substitute, ANY mix of integer and closure variables, any rearrangement (drop, duplicate, permute): the
+   reference-count code (one erase / share per closure variable dropped / duplicated, each skipped because
+   the block pointer of a closure without captured variables is null; uses C11_x86_erase_meaning /
+   C11_x86_share_meaning through x86_emit_rc_ok) followed by the parallel moves
+   (C11_x86_parallel_moves_simultaneous, C11_substitute_graph_edges) leaves the machine's rearranged
+   environment in the temporaries of the new context.  `has …` is the condition lin_check imposes. *)
+Theorem C06_sim_substitute :
+  forall (im : image) (CL : Z -> ident -> list clause -> Prop) (c : ctx) (e : env) (s : xstate) (sp : Z)
+         (re : list (binding * ident)) (vs : list value) (e' : env)
+         (c1 : list xcode) (lc lc1 : N) (c2 : list xcode) (pc : positive),
+    rel CL c e s sp -> NoDup (new_ids re) ->
+    (forall q, In q re -> has c (snd q) (bchi (fst q)) (bty (fst q)) = true) ->
+    lookups e (map snd re) = Some vs -> bind (map (fun r => bvar (fst r)) re) vs = Some e' ->
+    code_weakening_contraction x86_backend (transpose re c) c lc = Ok (c1, lc1) ->
+    code_exchange x86_backend (transpose re c) c (map fst re) = Ok c2 ->
+    code_at im pc (c1 ++ c2) -> labels_at_nh im pc (c1 ++ c2) ->
+    exists s', exec_to im pc s (padd pc (List.length (c1 ++ c2))) s' /\ rel CL (map fst re) e' s' sp /\ frame_eq s s' sp.
+Proof. exact sim_substitute. Qed.
+Print Assumptions C06_sim_substitute.
+(* in an integer context no reference-count code is emitted at all *)
+Theorem C06_sim_substitute_int_no_rc :
+  forall (c : ctx) (re : list (binding * ident)) (lc : N),
+    ctx_int c = true -> NoDup (ids c) ->
+    code_weakening_contraction x86_backend (transpose re c) c lc = Ok ([], lc).
+Proof. exact cwc_ctx_int. Qed.
+Print Assumptions C06_sim_substitute_int_no_rc.
+
+(* PrintI64 on the external-call model (alignment check at the call, havoc of rax rcx rdx rsi rdi r8-r11,
+   of the flags and of the stack below rsp): the printed value is the variable's, every live temporary of
+   EVERY context survives - whatever registers `caller_save_registers_info` lists (one per integer, two per
+   closure among the first four positions), however many of them fit into free callee-saved registers and
+   however many are pushed, with or without the alignment padding; spilled variables and r12-r15 are
+   untouched - and rsp is restored *)
+Theorem C06_sim_print :
+  forall (im : image) (CL : Z -> ident -> list clause -> Prop) (c : ctx) (e : env) (s : xstate) (sp : Z) (nl : bool)
+         (v : ident) (z : Z) (tv : xtemp),
+    rel CL c e s sp -> lookup_int e v = Some z ->
+    variable_temporary x86_backend Snd c (idn v) = Ok tv ->
+    exists s', exec_straight im (x_print nl tv c) s = Some s' /\
+               rel CL c e s' sp /\ out s' = (nl, z) :: out s /\ above_eq s s' sp.
+Proof. exact sim_print. Qed.
+Print Assumptions C06_sim_print.
+(* its core, for ANY list of distinct caller-saved registers and any first backup register >= 12 *)
+Theorem C06_sim_print_save_call_restore :
+  forall (im : image) (fb : N) (regs : list N) (s : xstate) (sp : Z) (nl : bool) (z : Z) (rs : N),
+    (12 <= fb)%N -> Forall (fun r => (4 <= r <= 11)%N) regs -> NoDup regs ->
+    frame_ok s sp -> sp mod 16 = 8 -> STACK_LIMIT + 128 <= sp ->
+    rget s rs = Some z -> rs <> 0%N -> (rs < fb)%N ->
+    exists s', exec_straight im (save_caller_save_registers fb regs ++ [MOV (arg 0) rs] ++ [CALL (print_name nl)]
+                                 ++ restore_caller_save_registers fb regs) s = Some s' /\
+      rget s' 0%N = Some sp /\
+      (forall r, In r regs -> rget s' r = rget s r) /\
+      (forall r, r <> 0%N -> existsb (N.eqb r) caller_saved = false -> (r < fb)%N -> rget s' r = rget s r) /\
+      (forall a, sp <= a -> kget s' a = kget s a) /\
+      out s' = (nl, z) :: out s /\ heap s' = heap s.
+Proof. exact print_core. Qed.
+Print Assumptions C06_sim_print_save_call_restore.
+
+(* Call: the jump changes no state; the callee's context (same kinds and types position by position:
+   lin_check's sig_match) relabels the same positions *)
+Theorem C06_sim_call :
+  forall (CL : Z -> ident -> list clause -> Prop) (c : ctx) (e : env) (st : xstate) (sp : Z) (c' : ctx) (e' : env),
+    rel CL c e st sp -> NoDup (ids c') -> sig_match c c' = true ->
+    bind (vars c') (map snd e) = Some e' -> rel CL c' e' st sp.
+Proof. exact bind_rel. Qed.
+Print Assumptions C06_sim_call.
+
+(* Exit: the result reaches rax; from `cleanup`, with the frame the prologue built above the spill area
+   (`outer_ok`), the run ends with OExit of that value: rsp and rbx rbp r12-r15 have their entry values *)
+Theorem C06_sim_exit :
+  forall (im : image) (CL : Z -> ident -> list clause -> Prop) (c : ctx) (e : env) (s : xstate) (sp : Z) (v : ident) (z : Z) (tv : xtemp),
+    rel CL c e s sp -> lookup_int e v = Some z -> variable_temporary x86_backend Snd c (idn v) = Ok tv ->
+    exists s', exec_straight im (x_mov (XR RETURN1) tv) s = Some s' /\ rget s' RETURN1 = Some z /\
+               frame_ok s' sp /\ frame_eq s s' sp.
+Proof. exact sim_exit_mov. Qed.
+Print Assumptions C06_sim_exit.
+Theorem C06_sim_epilogue :
+  forall (im : image) (pcc : positive) (s : xstate) (sp : Z) (z : Z),
+    code_at im pcc cleanup -> frame_ok s sp -> outer_ok s sp -> rget s RETURN1 = Some z ->
+    finishes im pcc s (finish (out s) (OExit z)).
+Proof. exact epilogue_ok. Qed.
+Print Assumptions C06_sim_epilogue.
+
+(* the prologue: from the entry state of a C call with up to five integer arguments, `setup` builds the
+   frame and leaves argument i in the register of position i *)
+Theorem C06_sim_prologue :
+  forall (im : image) (args : list Z) (su : list xcode),
+    setup (List.length args) = Ok su ->
+    exists s, exec_straight im su (init_state args) = Some s /\
+      frame_ok s sp0 /\ outer_ok s sp0 /\ out s = [] /\ (exists f, rget s FREE = Some f) /\
+      (forall i, (i < List.length args)%nat -> rget s (5 + 2 * N.of_nat i)%N = Some (nth i args 0)).
+Proof. exact prologue_ok. Qed.
+Print Assumptions C06_sim_prologue.
+
+(* composition: for a statement of the fragment that is linearly well-typed in its (integer) context,
+   whose code sits in an image where the definitions' labels and `cleanup` resolve to the code emitted
+   for them, the ISA run from a related state ends with exactly the observation of the linear machine -
+   print trace and result, or the undefined operation - whenever the machine's run ends at all (a
+   linearly well-typed statement of the fragment never gets stuck: progress is part of the proof) *)
+Theorem C06_sim_exec :
+  forall (im : image) (p : prog) (sp : Z) (CL : Z -> ident -> list clause -> Prop),
+    (forall d, In d (pdefs p) ->
+       exists pcd lcd cd lcd', find_label (labels im) (show_ident (dname d) +++ "_") = Some pcd /\
+         PM.find pcd (code im) = Some (LAB (show_ident (dname d) +++ "_")) /\
+         code_statement x86_backend (ptypes p) (dbody d) (dctx d) lcd = Ok (cd, lcd') /\
+         code_at im (Pos.succ pcd) cd /\ labels_at_nh im (Pos.succ pcd) cd) ->
+    (exists pcc, find_label (labels im) "cleanup" = Some pcc /\ code_at im pcc cleanup) ->
+    (forall d, In d (pdefs p) -> lin_check (sigs_of p) (dctx d) (dbody d) = true) ->
+    (forall d, In d (pdefs p) -> def_int d = true) ->
+    forall (fuel : nat) (s : stmt) (c : ctx) (e : env) (ot : prints) (st : xstate) (pc : positive)
+           (code : list xcode) (lc lc' : N),
+      stmt_int s = true -> ctx_int c = true -> lin_check (sigs_of p) c s = true ->
+      code_statement x86_backend (ptypes p) s c lc = Ok (code, lc') ->
+      code_at im pc code -> labels_at_nh im pc code ->
+      rel CL c e st sp -> outer_ok st sp -> out st = ot ->
+      snd (exec_linear fuel p e s ot) <> OOutOfFuel -> finishes im pc st (exec_linear fuel p e s ot).
+Proof. exact sim_exec. Qed.
+Print Assumptions C06_sim_exec.
+
+(* layout: in the image of an instruction list that passes the assembler-level check `asm_wf` (C14,
+   evaluated on the REAL output on every run), instruction j sits at index 1+j and every label not
+   starting with '#' resolves to its own position *)
+Theorem C06_image_layout :
+  forall cs : list xcode,
+    asm_wf cs = None -> code_at (mk_image cs) 1%positive cs /\ labels_at_nh (mk_image cs) 1%positive cs.
+Proof. exact mk_image_layout. Qed.
+Print Assumptions C06_image_layout.
+
+(* THE PROGRAM-LEVEL THEOREM for the integer fragment.  For every program p whose definitions all have
+   integer contexts and bodies made of Substitute / Call / Literal / Op / PrintI64 / IfC / Exit
+   (`int_frag`), whose definition names do not start with '#' (`plain_names`: true of every name the
+   parser or the pipeline produces), that is linearly well-typed (`lin_check_prog`, C05), for every
+   label-counter start, every argument list of the entry definition's arity and every fuel: if the code
+   the generator emits passes `asm_wf` (labels unique) and the linear machine's run ENDS (anything but
+   out-of-fuel), then the ISA run of the emitted code on the same arguments makes the same print calls
+   with the same values and ends the same way (same result; same undefined-operation reason).
+   Missing to the full C06_codegen_correct_statement: the heap statements Let / Switch / Create /
+   Invoke; label uniqueness is a checked hypothesis (asm_wf), not a theorem; divergence is not covered. *)
+Theorem C06_codegen_simulates_int :
+  forall (p : prog) (lc : N) (cs : list xcode) (n : nat) (lc' : N) (args : list Z) (fuel : nat) (o : obs),
+    int_frag p = true -> plain_names p = true -> lin_check_prog p = true ->
+    x86_compile p lc = Ok (cs, n, lc') -> asm_wf cs = None ->
+    List.length args = n ->
+    run_linear fuel p args = o -> snd o <> OOutOfFuel ->
+    exists outer inner, fst (run_x86 outer inner cs args) = o.
+Proof. exact x86_codegen_simulates_int_total. Qed.
+Print Assumptions C06_codegen_simulates_int.
+
+(* the arity hypothesis is needed: with a wrong number of arguments the linear machine refuses to start
+   (OStuck "entry-args"), which no ISA run reports (witness: six arguments for a one-parameter entry) *)
+Theorem C06_codegen_simulates_int_arity_refuted :
+  ~ (forall (p : prog) (lc : N) (cs : list xcode) (n : nat) (lc' : N) (args : list Z) (fuel : nat) (o : obs),
+      int_frag p = true -> plain_names p = true -> lin_check_prog p = true ->
+      x86_compile p lc = Ok (cs, n, lc') -> asm_wf cs = None ->
+      run_linear fuel p args = o -> snd o <> OOutOfFuel ->
+      exists outer inner, fst (run_x86 outer inner cs args) = o).
+Proof. exact ex_arity_needed. Qed.
+Print Assumptions C06_codegen_simulates_int_arity_refuted.
+
+(* the same theorem under the name the partial-statement convention asks for: C06_codegen_correct_statement
+   restricted to the integer fragment (missing: Let / Switch / Create / Invoke) *)
+Theorem C06_codegen_correct_partial :
+  forall (p : prog) (lc : N) (cs : list xcode) (n : nat) (lc' : N) (args : list Z) (fuel : nat) (o : obs),
+    int_frag p = true -> plain_names p = true -> lin_check_prog p = true -> asm_wf cs = None ->
+    x86_compile p lc = Ok (cs, n, lc') ->
+    run_linear fuel p args = o -> defined o = true ->
+    exists outer inner, fst (run_x86 outer inner cs args) = o.
+Proof. exact x86_codegen_correct_int. Qed.
+Print Assumptions C06_codegen_correct_partial.
+
+(* the hypotheses are satisfiable by a non-trivial program (two definitions calling each other, literals,
+   Sum Sub Prod Div Rem, both forms of IfC, a three-way explicit substitution with a duplicated source,
+   prints), and the conclusion is what evaluation shows: Proof/X86SimExample.v *)
+Theorem C06_codegen_simulates_int_example_hypotheses :
+  int_frag ex_prog = true /\ plain_names ex_prog = true /\ lin_check_prog ex_prog = true /\
+  (exists n lc', x86_compile ex_prog 0 = Ok (ex_code, n, lc')) /\ asm_wf ex_code = None.
+Proof. exact ex_hypotheses. Qed.
+Print Assumptions C06_codegen_simulates_int_example_hypotheses.
+Theorem C06_codegen_simulates_int_example_runs :
+  run_linear 50 ex_prog [0] = ([(true, 10); (false, -70)], OExit 10) /\
+  fst (run_x86 10 1000 ex_code [0]) = ([(true, 10); (false, -70)], OExit 10) /\
+  run_linear 50 ex_prog [12] = ([(true, 22); (false, 1)], OExit 11) /\
+  fst (run_x86 10 1000 ex_code [12]) = ([(true, 22); (false, 1)], OExit 11) /\
+  run_linear 50 ex_prog [10] = ([(true, 20)], OUndef "div0"%string) /\
+  fst (run_x86 10 1000 ex_code [10]) = ([(true, 20)], OUndef "div0"%string).
+Proof. exact ex_runs. Qed.
+Print Assumptions C06_codegen_simulates_int_example_runs.
+
+
+(* ======================================================================================== *)
+(* Closures without captured variables: create / invoke (the closure fragment)               *)
+(* ======================================================================================== *)
+From SCC Require Import Proof.X86SimAddr Proof.X86SimClo Proof.X86SimProgC Proof.X86SimTopC Proof.X86SimExampleC.
+Open Scope list_scope.
+
+(* byte addresses in the image of ANY instruction list: every placed instruction has an address >= CODE_BASE,
+   consecutive instructions have consecutive addresses (5 bytes for `jmp near`, 16 otherwise, 0 for labels),
+   and the address after an instruction of non-zero size maps back (index_at: what an indirect jump uses) to
+   exactly the next instruction *)
+Theorem C06_image_addresses : forall cs : list xcode, img_ok (mk_image cs).
+Proof. exact mk_image_ok. Qed.
+Print Assumptions C06_image_addresses.
+
+(* `clo_ok im p a T clauses` - what the second temporary of a closure variable points to (the CL of the
+   relation from here on): the clauses are T's destructors in declaration order; an indirect jump to a (one
+   clause) or to a + 5k (clause k through the jump table) arrives, with the state unchanged, at the code
+   generated for the body of clause k, which is linearly well-typed in the clause context and in the fragment.
+   The code a Create statement emits after its continuation (label, table of `jmp near`, clause bodies)
+   establishes it for the address of its label: *)
+Theorem C06_closure_layout :
+  forall (im : image) (p : prog), img_ok im ->
+    (forall pc a, PM.find pc (addr_of im) = Some a -> a < 4611686018427387904) ->
+  forall (pc : positive) (P : list xcode) (fresh : string) (tn : ident) (cls : list clause) (c5 : list xcode) (lc3 lc5 : N),
+    code_at im pc (P ++ ([LAB fresh] ++ table_or_nil cls fresh) ++ c5) ->
+    labels_at_nh im pc (P ++ ([LAB fresh] ++ table_or_nil cls fresh) ++ c5) ->
+    ends_nz P -> is_hash_label fresh = false ->
+    clauses_code (ptypes p) [] fresh cls lc3 = Ok (c5, lc5) ->
+    cls <> [] -> cls_ok (sigs_of p) (Decl tn) cls = true ->
+    (forall c, In c cls -> lin_check (sigs_of p) (cl_ctx c) (cl_body c) = true /\ stmt_cf (cl_body c) = true /\ ctx_cf (cl_ctx c) = true) ->
+    exists a, label_addr im fresh = Some a /\ clo_ok im p a tn cls.
+Proof. exact create_layout. Qed.
+Print Assumptions C06_closure_layout.
+
+(* Create of a closure without captured variables, ANY context: null block pointer into the first temporary
+   of the new position, the address of the closure's label into the second; the machine's new environment
+   entry VClo is represented; control continues with the code of the continuation statement *)
+Theorem C06_sim_create :
+  forall (im : image) (p : prog), img_ok im ->
+    (forall pc a, PM.find pc (addr_of im) = Some a -> a < 4611686018427387904) ->
+  forall (c : ctx) (e : env) (s : xstate) (sp : Z) (v tn : ident) (cls : list clause) (next : stmt) (lc : N)
+         (code : list xcode) (lc' : N) (pc : positive),
+    rel (clo_ok im p) c e s sp -> NoDup (ids (c ++ [mkb v Cns (Decl tn)])) ->
+    code_statement x86_backend (ptypes p) (Create v (Decl tn) (Some []) cls next) c lc = Ok (code, lc') ->
+    code_at im pc code -> labels_at_nh im pc code ->
+    is_hash_label (type_label (Decl tn) (lc + 1)%N) = false ->
+    cls <> [] -> stmt_cf next = true -> cls_ok (sigs_of p) (Decl tn) cls = true ->
+    (forall cl, In cl cls -> lin_check (sigs_of p) (cl_ctx cl) (cl_body cl) = true /\ stmt_cf (cl_body cl) = true /\ ctx_cf (cl_ctx cl) = true) ->
+    exists c12 c3 lc3 rest s',
+      code = c12 ++ c3 ++ rest /\
+      code_statement x86_backend (ptypes p) next (c ++ [mkb v Cns (Decl tn)]) (lc + 1)%N = Ok (c3, lc3) /\
+      exec_straight im c12 s = Some s' /\
+      rel (clo_ok im p) (c ++ [mkb v Cns (Decl tn)]) (e ++ [(v, VClo tn cls [])]) s' sp /\ frame_eq s s' sp.
+Proof. exact sim_create. Qed.
+Print Assumptions C06_sim_create.
+
+(* Invoke, ANY context: whether the type has one destructor (`jmp` through the temporary) or several
+   (`add temporary, 5k; jmp`, the immediate encodable because the image passes asm_wf), with the closure in a
+   register or in a spill slot, control arrives at the body of the clause the machine selects, in a state
+   related to the machine's new environment (the arguments relabelled by the clause context) *)
+Theorem C06_sim_invoke :
+  forall (im : image) (p : prog),
+    (forall pc c, PM.find pc (code im) = Some c -> instr_wf c = true) ->
+  forall (c : ctx) (e : env) (s : xstate) (sp : Z) (v tag : ident) (t : ty) (args : ctx) (code : list xcode) (lc lc' : N)
+         (pc : positive) (e0 : env) (x tn : ident) (cls : list clause) (ce : env) (cl : clause) (e1 : env),
+    rel (clo_ok im p) c e s sp ->
+    AxSem.split_last 1 e = Some (e0, [(x, VClo tn cls ce)]) -> N.eqb (idn x) (idn v) = true ->
+    find_clause cls tag = Some cl -> bind (vars (cl_ctx cl)) (map snd e0) = Some e1 ->
+    lin_check (sigs_of p) c (Invoke v tag t args) = true ->
+    code_statement x86_backend (ptypes p) (Invoke v tag t args) c lc = Ok (code, lc') -> code_at im pc code ->
+    exists pcb lcb cb lcb' s',
+      exec_to im pc s pcb s' /\
+      code_statement x86_backend (ptypes p) (cl_body cl) (cl_ctx cl) lcb = Ok (cb, lcb') /\ code_at im pcb cb /\ labels_at_nh im pcb cb /\
+      lin_check (sigs_of p) (cl_ctx cl) (cl_body cl) = true /\ stmt_cf (cl_body cl) = true /\ ctx_cf (cl_ctx cl) = true /\
+      rel (clo_ok im p) (cl_ctx cl) (e1 ++ ce) s' sp /\ frame_eq s s' sp.
+Proof. exact sim_invoke. Qed.
+Print Assumptions C06_sim_invoke.
+
+(* composition for the closure fragment (stmt_cf: the integer statements plus Create with an empty
+   environment and at least one clause, and Invoke; variables `ext i64` or `cns T`) *)
+Theorem C06_sim_exec_cf :
+  forall (im : image) (p : prog) (sp : Z),
+    img_ok im ->
+    (forall pc a, PM.find pc (addr_of im) = Some a -> a < 4611686018427387904) ->
+    (forall pc c, PM.find pc (code im) = Some c -> instr_wf c = true) ->
+    (forall d, In d (ptypes p) -> is_hash_label (label_of_type_name (show_ident (tname d))) = false) ->
+    (forall d, In d (pdefs p) ->
+       exists pcd lcd cd lcd', find_label (labels im) (show_ident (dname d) +++ "_") = Some pcd /\
+         PM.find pcd (code im) = Some (LAB (show_ident (dname d) +++ "_")) /\
+         code_statement x86_backend (ptypes p) (dbody d) (dctx d) lcd = Ok (cd, lcd') /\
+         code_at im (Pos.succ pcd) cd /\ labels_at_nh im (Pos.succ pcd) cd) ->
+    (exists pcc, find_label (labels im) "cleanup" = Some pcc /\ code_at im pcc cleanup) ->
+    (forall d, In d (pdefs p) -> lin_check (sigs_of p) (dctx d) (dbody d) = true) ->
+    (forall d, In d (pdefs p) -> stmt_cf (dbody d) = true) ->
+    forall (fuel : nat) (s : stmt) (c : ctx) (e : env) (ot : prints) (st : xstate) (pc : positive)
+           (code : list xcode) (lc lc' : N),
+      stmt_cf s = true -> lin_check (sigs_of p) c s = true ->
+      code_statement x86_backend (ptypes p) s c lc = Ok (code, lc') ->
+      code_at im pc code -> labels_at_nh im pc code ->
+      rel (clo_ok im p) c e st sp -> outer_ok st sp -> out st = ot ->
+      snd (exec_linear fuel p e s ot) <> OOutOfFuel -> finishes im pc st (exec_linear fuel p e s ot).
+Proof. exact sim_exec_cf. Qed.
+Print Assumptions C06_sim_exec_cf.
+
+(* THE PROGRAM-LEVEL THEOREM for the closure fragment: as C06_codegen_simulates_int, for programs whose
+   variables are integers or closures without captured variables and whose statements are Substitute / Call /
+   Literal / Op / PrintI64 / IfC / Exit / Create (empty environment) / Invoke (`cf_frag`), whose entry
+   definition takes integers (`entry_int`), whose definition and type names do not start with '#', linearly
+   well-typed; the emitted code passes asm_wf and is smaller than 2^62 - 2^30 bytes (`code_small`: code
+   addresses are added to table offsets in 64-bit arithmetic).  Every terminating run of the linear machine is
+   reproduced by the ISA run of the emitted code.  This is the shape of the pipeline's output for first-order
+   tail-recursive integer programs (every call passes the return continuation, a closure).
+   Missing to the full statement: closures with captured variables and data (Let / Switch): heap blocks. *)
+Theorem C06_codegen_simulates_cf :
+  forall (p : prog) (lc : N) (cs : list xcode) (n : nat) (lc' : N) (args : list Z) (fuel : nat) (o : obs),
+    cf_frag p = true -> entry_int p = true -> plain_names p = true -> plain_types p = true -> lin_check_prog p = true ->
+    x86_compile p lc = Ok (cs, n, lc') -> asm_wf cs = None -> code_small cs = true ->
+    List.length args = n ->
+    run_linear fuel p args = o -> snd o <> OOutOfFuel ->
+    exists outer inner, fst (run_x86 outer inner cs args) = o.
+Proof. exact x86_codegen_simulates_cf. Qed.
+Print Assumptions C06_codegen_simulates_cf.
+
+(* non-vacuity: a program of the pipeline's shape (main creates the return continuation and calls the
+   tail-recursive f, which finally invokes it) with a second closure of a two-destructor type entered through
+   its jump table; closures are passed along, dropped (erase of a null pointer) and kept by substitutions *)
+Theorem C06_codegen_simulates_cf_example_hypotheses :
+  cf_frag exc_prog = true /\ entry_int exc_prog = true /\ plain_names exc_prog = true /\ plain_types exc_prog = true /\
+  lin_check_prog exc_prog = true /\
+  (exists n lc', x86_compile exc_prog 0 = Ok (exc_code, n, lc')) /\ asm_wf exc_code = None /\ code_small exc_code = true.
+Proof. exact exc_hypotheses. Qed.
+Print Assumptions C06_codegen_simulates_cf_example_hypotheses.
+Theorem C06_codegen_simulates_cf_example_runs :
+  run_linear 60 exc_prog [4] = ([(false, 4); (false, 7); (false, 9); (false, 10); (true, 10)], OExit 10) /\
+  fst (run_x86 10 2000 exc_code [4]) = ([(false, 4); (false, 7); (false, 9); (false, 10); (true, 10)], OExit 10) /\
+  run_linear 60 exc_prog [-3] = ([], OExit (-21)) /\
+  fst (run_x86 10 2000 exc_code [-3]) = ([], OExit (-21)).
+Proof. exact exc_runs. Qed.
+Print Assumptions C06_codegen_simulates_cf_example_runs.
